@@ -216,6 +216,16 @@ def replay(path):
         return 1 if rc == 1 else (0 if rc == 0 else 2)
     if kind == 'kani-harness':
         return P.replay_kani(j)
+    if kind == 'bx-vec':
+        r = units.run_bx_vec('replay', 0, case=j['case'])
+        print(r.reason)
+        return 1 if r.status == VIOLATION else (0 if r.status == PASS else 2)
+    if kind == 'gk-native':
+        r = units.run_gk_native('replay', j['harness'])
+        print('native harness %s on the current tree: %s %s' % (j['harness'], r.status, r.reason))
+        for f in r.failures:
+            print('REPLAY: violated %s' % f['message'])
+        return 1 if r.status == VIOLATION else (0 if r.status == PASS else 2)
     if kind == 'bx-determinism':
         r = units.run_bx_determinism('replay', 6 if j.get('tier') == 'thorough' else 5)
         print('determinism stand-in on the current tree: %s %s' % (r.status, r.reason))
